@@ -548,6 +548,57 @@ pub fn run(ctx: &mut Ctx) {
             }
         }
     }
+    // ---- family E: header blocks whose verdict is only known at their end (a repeated Content-Length,
+    // the last one wins; an over-limit declaration followed by an acceptable one, by a malformed line, or by
+    // nothing): the verdict must not depend on where inside the block a read ends
+    let mut idx_e = 0u64;
+    for limit in [51200usize, 1024, 100] {
+        for first in [limit + 1, 2 * limit, u32::MAX as usize, limit, 3] {
+            for second in 0..6usize {
+                for tail in 0..2usize {
+                    idx_e += 1;
+                    if !ctx.mine(idx_e) {
+                        continue;
+                    }
+                    let mut rng = ctx.item_rng(0xE, idx_e);
+                    let mut s = format!("PUT /e{} HTTP/1.1\r\nContent-Length: {}\r\n", idx_e, first).into_bytes();
+                    let mut body_len = if first <= limit { first } else { 0 };
+                    match second {
+                        0 => {}
+                        1 => {
+                            s.extend_from_slice(b"Content-Length: 5\r\n");
+                            body_len = 5;
+                        }
+                        2 => s.extend_from_slice(b"Content-Length: abc\r\n"),
+                        3 => s.extend_from_slice(b"nocolon\r\n"),
+                        4 => {
+                            s.extend_from_slice(format!("X-Pad: p\r\nExpect: 100-continue\r\ncontent-length: {}\r\n", limit).as_bytes());
+                            body_len = limit;
+                        }
+                        _ => {
+                            s.extend_from_slice(format!("Content-Length: 2\r\nContent-Length: {}\r\n", limit + 7).as_bytes());
+                            body_len = 0;
+                        }
+                    }
+                    s.extend_from_slice(b"X-Tag: t\r\n\r\n");
+                    s.extend((0..body_len.min(3000)).map(|i| b'a' + (i % 26) as u8));
+                    if tail == 1 {
+                        s.extend_from_slice(b"GET /next HTTP/1.0\r\n\r\n");
+                    }
+                    let plan_e = Plan {
+                        all_single_cuts: true,
+                        single_cut_stride: 1,
+                        pairs: if quick { 12 } else { 200 },
+                        const_sizes: vec![1, 2, 7],
+                        random_multi: if quick { 3 } else { 20 },
+                        gaps: vec![Gap::None, Gap::WouldBlock, Gap::Interrupted],
+                    };
+                    ctx.rep.count("family_verdict_at_end_of_header_block");
+                    check_stream(ctx, &StreamCase { stream: &s, layouts: None, limit }, &mut rng, &plan_e);
+                }
+            }
+        }
+    }
     // ---- family B: alignment-targeted streams
     let mut idx = 0u64;
     let reps = ctx.budget(1, 6);
